@@ -2,6 +2,7 @@
 from __future__ import annotations
 
 import gc
+import functools
 import random
 import sys
 import types
@@ -421,10 +422,11 @@ def make_service(h):
         s.register_method(1, lambda m, a: b"ok" + m.payload[:4])
         s.register_method(2, lambda m, a: None)
 
-        def rej(m, a):
+        def rej(tag, m, a):
             raise SV.MalformedMessageError()
 
-        s.register_method(3, rej)
+        # (a handler need not be a function: a functools.partial has no __name__, for one)
+        s.register_method(3, functools.partial(rej, "slot-3"))
         eg = SV.SimpleEventgroup(s, id=1, interval=1)
         eg.values[1] = b"v"
         s.register_eventgroup(eg)
